@@ -24,7 +24,7 @@ def choose_versions(run, exe, U, acc, rnd, nclass, nsingle):
               [v + q for v in ("1.0", "1.0.0", "2.0.0", "1.1") for q in ("-rc1", ".rc1", "rc1", "-alpha", "-alpha.1", "a1", "_rc1", "~rc1", "-SNAPSHOT", ".dev1", "-beta")] +
               # zero parts spelled with several digits, and pre-release identifiers around the limits of machine integers next
               # to digit-led alphanumerics: where an order stops being transitive first (the lists C07 sorts come from here)
-              ["1.00", "1.0.00", "1.000", "01.0", "2.5.000"] +
+              ["1.00", "1.0.00", "1.000", "01.0", "2.5.000", "1.05", "1.010", "1.01", "2.05.1", "1.1_alpha", "1.1_rc1", "1.1-r1", "1.1_p1", "1.2"] +
               [st + "-" + i for st in ("1.0.0", "v1.0.0") for i in ("5", "10", "9223372036854775808", "40000000000000000000", "100000000000000000000", "5a", "1a", "9a", "12", "100", "0a")]
               for e in ECOS}
     fam = vlib.accept_filter(run, exe, fam, name="fam")
@@ -54,6 +54,7 @@ def choose_versions(run, exe, U, acc, rnd, nclass, nsingle):
             infam = [i for i in cl if T[i] in famset[e]]
             pickfrom = rnd.sample(infam, min(len(infam), 3))
             chosen += pickfrom + rnd.sample([i for i in cl if i not in pickfrom], min(len(cl) - len(pickfrom), 3 - len(pickfrom)))
+        chosen += [i for i in range(len(T)) if T[i] in famset[e]]          # every family member, also the ones without an equal
         rest = [i for i in range(len(T)) if i not in set(chosen)]
         chosen += rnd.sample(rest, min(len(rest), nsingle))
         out[e] = [T[i] for i in sorted(set(chosen))]
@@ -100,16 +101,33 @@ def check(run):
         for e in ECOS:
             versions[e] = list(dict.fromkeys(versions[e] + var[e]))
         by = {e: [] for e in ECOS}
+        must = {}
         for j in cjobs:
             convex = len(j["groups"]) == 1 and all(c["op"] != "ne" for c in j["groups"][0])
             by[j["eco"]].append({"text": j["text"], "convex": convex})
         if r == 0:
+            # plain comparator ranges on the family numbers (whatever the ecosystem's parser accepts of them; all of them
+            # single conjunctions, hence convex): the members around 1.0 / 1.1 / 2.0 meet bounds at exactly those numbers
+            for e in ECOS:
+                for b in ("1.1", "1.0", "2.0", "1.1.0", "v1.1.0", "1.0.0"):
+                    for t in (">=" + b, "<" + b, ">" + b, "<=" + b, ">= " + b):
+                        must.setdefault(e, []).append({"text": t, "convex": True})
+                for t in (">=1.1 <3.0", ">=1.1,<3.0", ">=1.1, <3.0", ">=1.1.0 <3.0.0", ">1.0 <=2.0", ">=1.1 and <3.0"):
+                    must.setdefault(e, []).append({"text": t, "convex": True})
+            ptexts = {}
             for v in shvecs:
                 by[v["eco"]].append({"text": v["text"], "convex": (not v["neg"]) and len(v["ivs"]) == 1})
+                ptexts.setdefault(v["eco"], set()).update(p["t"] for p in v["probes"])
+            # the boundary probes of the shorthand table (base, below, interior pre-releases, last before the upper bound, ...)
+            # are members too: a shorthand range must be convex over them
+            for e in ptexts:
+                pool = sorted(ptexts[e])
+                versions[e] = list(dict.fromkeys(versions[e] + rnd.sample(pool, min(len(pool), 70))))
         for e in ECOS:
             rs = by[e]
             if quick and len(rs) > 500:
                 rs = rnd.sample(rs, 500)
+            rs = rs + must.get(e, [])
             nranges += len(rs)
             for i in range(0, len(rs), 250):
                 jobs.append({"k": "members", "eco": e, "texts": versions[e], "part": [vlib.part_of(e, t) for t in versions[e]],
